@@ -3,7 +3,7 @@
 They decide nothing about the model: the theorems do that. They turn a broken tie into a concrete replay."""
 
 from spec import check_sequential
-from cases import take_params
+from cases import take_params, take_plan
 
 PULL_OPS = ("next", "nextv", "chunk", "bufnext", "foreach", "enumforeach", "fold", "values", "idsvalues")
 LOOP_OPS = ("foreach", "enumforeach", "fold", "values", "idsvalues")
@@ -116,16 +116,23 @@ class Trace:
         elif oi.op in ("chunk", "bufnext") and r and r[0] == "chunk":
             b, a, l = int(r[1]), int(r[2]), int(r[3])
             vals = [int(x) for x in r[4:]]
-            sk, _ = take_params(oi.toks[-1], a)
-            n = max(a, sk + len(vals))
+            offs, _ = take_plan(oi.toks[-1], a) if a <= 200000 else ([], 0)
+            if a > 200000:
+                sk, _ = take_params(oi.toks[-1], a)
+                offs = list(range(sk, sk + len(vals)))
+            # values beyond the expected ones (a broken consumer) are attributed to the offsets that follow
+            while len(offs) < len(vals):
+                offs.append((offs[-1] + 1) if offs else 0)
+            at = {o: vals[i] for i, o in enumerate(offs[:len(vals)])}
+            n = max([a] + [o + 1 for o in at])
             ks = range(n)
             if n > 200000:
                 # an astronomic chunk (extreme ranges): its consumed part, the positions next to it and its last positions
-                head = sk + len(vals) + 64
+                head = max(at, default=0) + 64
                 ks = list(range(min(n, head))) + list(range(max(head, n - 64), n))
             for k in ks:
-                got = sk <= k < sk + len(vals)
-                out.append((b + k, vals[k - sk] if got else None, got))
+                got = k in at
+                out.append((b + k, at[k] if got else None, got))
         elif oi.op in LOOP_OPS:
             for (idx, val, _) in oi.visits:
                 out.append((idx, val, True))
@@ -182,6 +189,27 @@ def check_fidelity(tr):
                 bad.append("index %d beyond the source length %d (line %s)" % (idx, n, oi.ret))
             elif c.val_at(idx) != val:
                 bad.append("index %d delivered with value %d, source has %d (line %s)" % (idx, val, c.val_at(idx), oi.ret))
+    return bad
+
+
+def check_value_dup(tr):
+    """no element (identified by its payload, for sources with distinct payloads) is handed to callers twice"""
+    c = tr.case
+    if c.zst or c.kind == "range" or c.iters != 1:
+        return []
+    vals = c.src_values()
+    if vals is None or len(set(vals)) != len(vals):
+        return []
+    seen = {}
+    bad = []
+    for oi in tr.ops:
+        if oi.slot != 0:
+            continue
+        for (_, val, got) in tr.deliveries(oi):
+            if got and val is not None:
+                if val in seen:
+                    bad.append("the element with payload %d was handed out twice (line %s and line %s)" % (val, seen[val], oi.ret))
+                seen[val] = oi.ret
     return bad
 
 
@@ -370,12 +398,12 @@ def check_C03(tr):
             if a < n and (not c.is_iter() or c.fused()) and b + a != L:
                 bad.append("short chunk [%d,%d) does not end at the source end %d (line %d)" % (b, b + a, L, oi.ret))
         want = oi.toks[-1]
-        sk, k = take_params(want, a)
+        offs, k = take_plan(want, a)
         if k + l != a:
             bad.append("announced length %d but %d consumed and %d left (line %d)" % (a, k, l, oi.ret))
-        if len(vals) != k - sk:
+        if len(vals) != len(offs):
             bad.append("asked to consume %s of announced %d, got %d elements (line %d)" % (want, a, len(vals), oi.ret))
-        for j, v in enumerate(vals, sk):
+        for j, v in zip(offs, vals):
             if b + j < L and c.val_at(b + j) != v:
                 bad.append("chunk element %d at position %d is %d, source has %s (line %d)" % (j, b + j, v, c.val_at(b + j), oi.ret))
             if b + j >= L:
@@ -692,7 +720,7 @@ def check_C10(tr):
             seq = [int(x) for x in toks[2:]]
     if seq is None:
         return ["into_seq_iter produced no result"]
-    bad = []
+    bad = check_value_dup(tr) if not c.has_op("get") else []
     n = c.src_len()
     if n > BIG_SRC:
         return bad       # an astronomic range: its remainder cannot be listed
